@@ -89,6 +89,7 @@ class InterpreterBase:
         self.coredata = env.get_coredata()
         self.variables: T.Dict[str, InterpreterObject] = {}
         self.argument_depth = 0
+        self.loop_depth = 0
         self.current_lineno = -1
         # Current node set during a function call. This can be used as location
         # when printing a warning message during a method call.
@@ -255,8 +256,12 @@ class InterpreterBase:
         elif isinstance(cur, mparser.TernaryNode):
             return self.evaluate_ternary(cur)
         elif isinstance(cur, mparser.ContinueNode):
+            if self.loop_depth == 0:
+                raise InvalidCode('"continue" used outside of a foreach loop.')
             raise ContinueRequest()
         elif isinstance(cur, mparser.BreakNode):
+            if self.loop_depth == 0:
+                raise InvalidCode('"break" used outside of a foreach loop.')
             raise BreakRequest()
         elif isinstance(cur, mparser.ParenthesizedNode):
             return self.evaluate_statement(cur.inner)
@@ -463,6 +468,13 @@ class InterpreterBase:
         if len(node.varnames) != (tsize or 1):
             raise InvalidArguments(f'Foreach expects exactly {tsize or 1} variables for iterating over objects of type {items.display_name()}')
 
+        self.loop_depth += 1
+        try:
+            self._evaluate_foreach_items(node, items, tsize)
+        finally:
+            self.loop_depth -= 1
+
+    def _evaluate_foreach_items(self, node: mparser.ForeachClauseNode, items: IterableObject, tsize: T.Optional[int]) -> None:
         for i in items.iter_self():
             if tsize is None:
                 if isinstance(i, tuple):
